@@ -211,7 +211,7 @@ fn fr_big(s: &Fr) -> BigUint {
 
 pub fn run(ctx: &mut Ctx) {
     let env = Env::new();
-    let (n_rand, n_pairs_rand, n_scal) = if ctx.quick() { (3, 40, 3) } else { (10, 600, 12) };
+    let (n_rand, n_pairs_rand, n_scal) = if crate::small(ctx) { (3 * crate::extra(ctx), 40 * crate::extra(ctx), 3) } else { (10, 600, 12) };
     let ops = operands(ctx, n_rand);
     for o in &ops {
         ctx.count(&format!("jj-operand:{}", o.class));
@@ -298,9 +298,9 @@ pub fn run(ctx: &mut Ctx) {
     let mut pairs: Vec<(usize, usize, &'static str)> = vec![];
     let core: Vec<usize> = (0..ops.len()).filter(|i| {
         let c = ops[*i].class;
-        !ctx.quick() || c != "rescaled" || i % 3 == 0
+        !crate::small(ctx) || c != "rescaled" || i % 3 == 0
     }).collect();
-    let core: Vec<usize> = if ctx.quick() { core.into_iter().step_by(2).collect() } else { core };
+    let core: Vec<usize> = if crate::small(ctx) { core.into_iter().step_by(2).collect() } else { core };
     for &i in &core {
         for &j in &core {
             pairs.push((i, j, "grid"));
@@ -388,7 +388,7 @@ pub fn run(ctx: &mut Ctx) {
 
     // scalar multiplication
     let scal = scalars(ctx, n_scal);
-    let mul_ops: Vec<&Operand> = if ctx.quick() { ops.iter().step_by(3).collect() } else { ops.iter().collect() };
+    let mul_ops: Vec<&Operand> = if crate::small(ctx) { ops.iter().step_by(3).collect() } else { ops.iter().collect() };
     for o in &mul_ops {
         let p = o.p;
         let pa = JubjubAffine::from(p);
@@ -435,7 +435,7 @@ pub fn run(ctx: &mut Ctx) {
     }
 
     // sums and batch normalisation
-    let lens: Vec<usize> = if ctx.quick() { vec![0, 1, 2, 5] } else { vec![0, 1, 2, 3, 7, 16, 33] };
+    let lens: Vec<usize> = if crate::small(ctx) { vec![0, 1, 2, 5] } else { vec![0, 1, 2, 3, 7, 16, 33] };
     for (n, len) in lens.iter().enumerate() {
         let mut rng = ctx.rng(&format!("jj-sum-{n}"));
         let pts: Vec<JubjubExtended> = (0..*len).map(|_| all[(rng.next_u32() as usize) % all.len()].p).collect();
@@ -521,8 +521,8 @@ fn codec(ctx: &mut Ctx, env: &Env, ops: &[Operand]) {
         decode_all(ctx, env, &format!("valid:{}", o.class), b);
     }
     // corruptions of valid encodings
-    let bits: Vec<usize> = if ctx.quick() { vec![0, 1, 7, 8, 100, 248, 252, 253, 254, 255] } else { (0..256).collect() };
-    let n_src = if ctx.quick() { 3 } else { 8 };
+    let bits: Vec<usize> = if crate::small(ctx) { vec![0, 1, 7, 8, 100, 248, 252, 253, 254, 255] } else { (0..256).collect() };
+    let n_src = if crate::small(ctx) { 3 } else { 8 };
     for o in ops.iter().filter(|o| o.class.starts_with("random") || o.class == "generator").take(n_src) {
         let b = JubjubAffine::from(o.p).to_bytes();
         for &bit in &bits {
@@ -555,7 +555,7 @@ fn codec(ctx: &mut Ctx, env: &Env, ops: &[Operand]) {
     for (name, v) in special {
         decode_all(ctx, env, &format!("special:{name}"), le32(&v));
     }
-    let n = if ctx.quick() { 60 } else { 2000 };
+    let n = if crate::small(ctx) { 60 } else { 2000 };
     let mut rng = ctx.rng("jj-random-bytes");
     for _ in 0..n {
         let mut b = [0u8; 32];
